@@ -1,4 +1,5 @@
----- MODULE Trace_P2P ----
+---- MODULE Trace_P2PCh ----
+(* Chunking on (RDProducerCh / RDConsumerCh); otherwise identical to Trace_P2P.      *)
 (* Conformance of recorded executions of the REAL controllers (scripted replays and  *)
 (* free-running runs alike) with the transcription: every handled message must take  *)
 (* the logged pre-state to the logged post-state and produce exactly the logged       *)
@@ -9,7 +10,7 @@
 (*   begin / fin / note       ignored here (used by the monitor)                      *)
 (* A network message must have been sent before it is handled; endpoint replies and   *)
 (* ticks are inputs.  A rejected line is conformance drift, never a verdict.          *)
-EXTENDS RDProducer, RDConsumer, Json
+EXTENDS RDProducerCh, RDConsumerCh, Json
 Log == ndJsonDeserialize("trace.ndjson")
 VARIABLES l, pc, cc, sent, box
 tvars == <<l, pc, cc, sent, box>>
